@@ -1,8 +1,10 @@
 import Engeom.Driver.C18
+import Engeom.Driver.C16
 
 def dispatch (op : String) (args : List String) : Option String :=
   match (op.splitOn ".").head! with
   | "angle" | "interval" => DrvC18.handle op args
+  | "dev" | "tolmap" | "cloud" | "domain" => DrvC16.handle op args
   | _ => none
 
 partial def loop (h : IO.FS.Stream) (out : IO.FS.Stream) : IO Unit := do
